@@ -110,6 +110,9 @@ pub struct Cfg {
     pub shared_cols: bool,
     /// 61-67 extra one-bit inputs W0.. (headers of 65 and more columns)
     pub wide_inputs: bool,
+    /// now and then a row statement repeats the row statement right before it, entry by entry
+    /// (or repeats it with one input column that held the literal 0 turned into `C`)
+    pub dup_rows: bool,
     /// virtual signal expressions may use random
     pub virtual_random: bool,
     /// variables and loop counters may be named like signals (Q, R, IO are in the pools)
@@ -168,6 +171,7 @@ impl Cfg {
             device_whiles: true,
             shared_cols: false,
             wide_inputs: false,
+            dup_rows: false,
             virtual_random: false,
             vars_like_signals: true,
         }
@@ -959,7 +963,28 @@ impl<'a> PGen<'a> {
                 0 => {
                     let id = self.next_row;
                     self.next_row += 1;
-                    let es = self.row(ch);
+                    let prev = match out.last() {
+                        Some(Stmt::Row(_, p)) if cfg.dup_rows && ch.chance(1, 4) => Some(p.clone()),
+                        _ => None,
+                    };
+                    let es = match prev {
+                        Some(mut es) => {
+                            if cfg.allow_c && ch.chance(1, 2) {
+                                // the same row with a clock: one input column holding 0 becomes C
+                                let mut col = 0usize;
+                                for e in es.iter_mut() {
+                                    let w = e.width();
+                                    if matches!(e, Entry::Num(0, _)) && self.cols.get(col).map(|c| c.role == ColRole::InputOnly).unwrap_or(false) {
+                                        *e = Entry::C(true);
+                                        break;
+                                    }
+                                    col += w;
+                                }
+                            }
+                            es
+                        }
+                        None => self.row(ch),
+                    };
                     out.push(Stmt::Row(id, es));
                 }
                 1 => {
